@@ -66,6 +66,13 @@ func blockedKey(res *mcrt.Result) string {
 type Oracle func(sp *Spec, x *X, res *mcrt.Result) (clause, detail string)
 
 // specItems expands a program over base strategies.
+// specItemsMixed: the deep bound under the first base strategy, the shallow one under the others (the base strategies
+// differ in which schedule costs nothing; one of them carries the deepest search).
+func specItemsMixed(prop string, sp *Spec, deep, shallow int, strats []int, tags []string, oracle Oracle) []Item {
+	items := specItems(prop, sp, deep, strats[:1], tags, oracle)
+	return append(items, specItems(prop, sp, shallow, strats[1:], tags, oracle)...)
+}
+
 func specItems(prop string, sp *Spec, bound int, strats []int, tags []string, oracle Oracle) []Item {
 	var out []Item
 	for _, st := range strats {
